@@ -39,7 +39,9 @@ struct C20 : Prop {
 		{
 			J bus = plan["bus"]; J af = J::arr();
 			// a slow node: from the n-th feature confirmation on every one is 2.1-4.5 s late
-			if (many && r.chance(600)) { J td = J::arr(); J e = J::arr(); e.push((int) MSG_FEATURE); e.push((int) r.range(1, 8)); e.push((int) r.range(2100, 4500)); td.push(e); bus.set("type_delays", td); }
+			// the command station confirms GO late (1.2-3 s) - initial values must not depend on the confirmation
+			if (r.chance(150)) { J td = bus.has("type_delays") ? bus["type_delays"] : J::arr(); J e = J::arr(); e.push((int) MSG_CS_STATE); e.push(1); e.push((int) r.range(1200, 3000)); td.push(e); bus.set("type_delays", td); }
+			if (many && r.chance(600)) { J td = bus.has("type_delays") ? bus["type_delays"] : J::arr(); J e = J::arr(); e.push((int) MSG_FEATURE); e.push((int) r.range(1, 8)); e.push((int) r.range(2100, 4500)); td.push(e); bus.set("type_delays", td); }
 			for (int i = 0, n = (int) r.below(5); i < n; i++) {
 				bus::Fault f; if (r.coin()) { f.kind = "delay"; f.a = r.range(1, 120); } else { f.kind = "chunk"; f.a = r.range(0, 12); f.b = r.range(1, 40); }
 				J e = J::arr(); e.push((int) r.range(1, 40)); e.push(bus::fault_json(f)); af.push(e);
